@@ -42,6 +42,8 @@ structure GeomAns where
   indep : Bool
   bnd : Option (Option (UInt64 × UInt64 × UInt64 × UInt64))   -- none = panic, some none = nil
   again : Bool
+  swap : Option (Option (Nat × Bool × List (Pt UInt64) × Option (Option (UInt64 × UInt64 × UInt64 × UInt64))))
+                                   -- absent | Len panicked | (Len, Points ok?, points, Bounds: panic / nil / box)
   hist : Option (Option (Option (UInt64 × UInt64 × UInt64 × UInt64)))   -- absent | panic | nil/box
   mutated : Bool
 
@@ -71,10 +73,22 @@ def pGeomAns (t : Tok) : Option GeomAns := do
     | "hist" :: "panic" :: t => pure (some none, t)
     | "hist" :: t => do let (r, t) ← pBoxRes t; pure (some (some r), t)
     | t => pure (none, t)
-  let mutd ← match t with
-    | ["mut", d] => pure (d == "1")
+  let (mutd, t) ← match t with
+    | "mut" :: d :: t => pure (d == "1", t)
     | _ => none
-  pure { len := len, ptsOk := ptsOk, ptsNoLen := noLen, pts := pts, indep := indep, bnd := bnd, again := again, hist := hist, mutated := mutd }
+  let swap ← match t with
+    | [] => pure none
+    | ["swap", "panic"] => pure (some none)
+    | "swap" :: n :: st :: k :: t => do
+      let n ← n.toNat?
+      let k ← k.toNat?
+      let (ps, t) ← pPtsN k t
+      match t with
+      | ["bnd", "panic"] => pure (some (some (n, st == "ok", ps, none)))
+      | "bnd" :: t => do let (r, _) ← pBoxRes t; pure (some (some (n, st == "ok", ps, some r)))
+      | _ => none
+    | _ => none
+  pure { len := len, ptsOk := ptsOk, ptsNoLen := noLen, pts := pts, indep := indep, bnd := bnd, again := again, swap := swap, hist := hist, mutated := mutd }
 
 def geomClass : BGeom → String
   | .point _ => "point" | .multiPoint _ => "multipoint" | .lineString _ => "linestring"
@@ -101,6 +115,24 @@ def emptyFlags : List BGeom → List Bool
   | g :: gs => (vertices g).isEmpty :: emptyFlags gs
 end
 
+
+def swapPt (p : Pt UInt64) : Pt UInt64 := ⟨p.y, p.x⟩
+mutual
+/-- every vertex transposed (what the harness does in place before asking again) -/
+def swapG : BGeom → BGeom
+  | .point p => .point (swapPt p)
+  | .multiPoint ps => .multiPoint (ps.map swapPt)
+  | .lineString ps => .lineString (ps.map swapPt)
+  | .multiLineString ls => .multiLineString (ls.map (·.map swapPt))
+  | .polygon ls => .polygon (ls.map (·.map swapPt))
+  | .multiPolygon ps => .multiPolygon (ps.map (·.map (·.map swapPt)))
+  | .collection gs => .collection (swapL gs)
+  | .bounds a b => .bounds (swapPt a) (swapPt b)
+  | .nil => .nil
+def swapL : List BGeom → List BGeom
+  | [] => []
+  | g :: gs => swapG g :: swapL gs
+end
 
 def showFault : Fault → String
   | .index => "index" | .nilDeref => "nilDeref" | .nilFunc => "nilFunc" | .explicit => "explicit" | .badState => "badState"
@@ -148,7 +180,24 @@ def judgeGeom (g : BGeom) (rhs : Tok) : String :=
               | some b2 =>
                 if !isEnvelopeB (vertices gk) b2 then
                   some "Bounds-depends-on-call-history:-after-the-caller-mutated-an-earlier-result-it-is-not-the-envelope"
-                else none
+                else if !boxesOk then none
+                else match a.swap with
+                | none => none
+                | some none => some "Len-panicked-after-in-place-change-of-the-coordinates"
+                | some (some (n2, ok2, ps2, b2r)) =>
+                  let g2 := swapG g
+                  let vs2 := vertices g2
+                  if n2 != vs2.length then some "Len-changed-after-in-place-change-of-the-coordinates"
+                  else if !ok2 then some s!"Points-panicked-after-in-place-change-of-the-coordinates"
+                  else if ps2 != vs2 then some "Points-stale-after-in-place-change-of-the-coordinates"
+                  else match b2r, geomKey g2 with
+                  | some (some q3), some gk2 =>
+                    match kbox q3 with
+                    | some b3 =>
+                      if !isEnvelopeB (vertices gk2) b3 then some "Bounds-stale-after-in-place-change-of-the-coordinates-(same-address,-same-length)"
+                      else none
+                    | none => some "Bounds-NaN"
+                  | _, _ => some "Bounds-panicked-or-nil-after-in-place-change-of-the-coordinates"
     match spec with
     | some why => s!"SPEC {cls} {why}"
     | none =>
@@ -255,6 +304,85 @@ def judgeLine (line : String) : String :=
         match w.splitOn " " with
         | k :: rest => s!"{k} hist {" ".intercalate rest}"
         | [] => "DIFF hist ?"
+  | "self" :: t =>
+    -- one pointer on both sides; the specification does not care about pointers: a box shares a
+    -- point with itself iff it has a point, its common rectangle with itself is itself (nil without area),
+    -- its join with itself is itself
+    if hasNaNBox t then "OK skipped-nan" else
+    match pTwo (t ++ ["NIL"]) with
+    | some (b, _, _) =>
+      let cls := "self-" ++ (if emptyB b then (if canon b then "emptybox" else "inverted") else if hasCommonAreaB b b then "area" else "degenerate")
+      match rhs with
+      | "ovl" :: o1 :: o2 :: o3 :: o4 :: "int" :: r =>
+        match pBoxRes r with
+        | some (i1, r) => match pBoxRes r with
+          | some (i2, "ext" :: r) => match pBoxRes r with
+            | some (some e1, r) => match pBoxRes r with
+              | some (some e2, "within" :: w1 :: w2 :: r) =>
+                let kk (q : Option (UInt64 × UInt64 × UInt64 × UInt64)) : Option (Option KBox) :=
+                  match q with | none => some none | some q => (kbox q).map some
+                match kk i1, kk i2, kbox e1, kbox e2 with
+                | some i1, some i2, some e1, some e2 =>
+                  let want := toString (sharePointB b b)
+                  if r.contains "argmut" then s!"SPEC {cls} operand-mutated"
+                  else if [o1, o2, o3, o4] != [want, want, want, want] then
+                    s!"SPEC {cls} b.Overlaps(b)={o1},{o2},{o3},{o4}-but-b-has-a-point={want}"
+                  else if !intersectionOkB b b i1 || !intersectionOkB b b i2 then s!"SPEC {cls} b.Intersection(b)-is-not-the-common-rectangle-or-nil"
+                  else if !isJoinB b b e1 || !isJoinB b b e2 || e1 != b || e2 != b then s!"SPEC {cls} c.Extend(c)-is-not-c"
+                  else if w1 != w2 then s!"SPEC {cls} b.Within(b)-unstable"
+                  else if want != toString (b.overlaps b) || i1 != b.intersection b || e1 != b.extend (some b) then s!"DIFF {cls} model-differs"
+                  else s!"OK {cls}"
+                | _, _, _, _ => s!"SPEC {cls} NaN-in-result"
+              | _ => s!"SPEC {cls} unexpected-result"
+            | _ => s!"SPEC {cls} unexpected-result"
+          | _ => s!"SPEC {cls} unexpected-result"
+        | none => s!"SPEC {cls} unexpected-result"
+      | _ => s!"SPEC {cls} unexpected-result {" ".intercalate (rhs.take 4)}"
+    | none => "DIFF self unparsable-input"
+  | "self3" :: t =>
+    if hasNaNBox t then "OK skipped-nan" else
+    match pTwo t with
+    | some (a, some b, _) =>
+      let cls := "self3-" ++ boxRel a b
+      let xs := [a, b, a]
+      let pairs := xs.flatMap fun x => xs.map fun y => (x, y)
+      match rhs with
+      | "ovl" :: r =>
+        let os := r.take 9
+        match r.drop 9 with
+        | "int" :: r =>
+          let rec ints : Nat → Tok → Option (List (Option (UInt64 × UInt64 × UInt64 × UInt64)) × Tok)
+            | 0, r => some ([], r)
+            | n+1, r => do let (q, r) ← pBoxRes r; let (qs, r) ← ints n r; pure (q :: qs, r)
+          match ints 9 r with
+          | some (is, "ext" :: r) =>
+            match ints 3 r with
+            | some ([some t1, some t2, some t3], r) =>
+              let kk (q : Option (UInt64 × UInt64 × UInt64 × UInt64)) : Option (Option KBox) :=
+                match q with | none => some none | some q => (kbox q).map some
+              let isK := is.map kk
+              match kbox t1, kbox t2, kbox t3 with
+              | some t1, some t2, some t3 =>
+                if isK.any (·.isNone) then s!"SPEC {cls} NaN-in-result" else
+                let isK := isK.filterMap id
+                let ovlOk := (pairs.zip os).all fun ((x, y), o) => o == toString (sharePointB x y)
+                let intOk := (pairs.zip isK).all fun ((x, y), i) => intersectionOkB x y i
+                if r.contains "argmut" then s!"SPEC {cls} operand-mutated"
+                else if os.length != 9 || !ovlOk then s!"SPEC {cls} all-pairs-Overlaps-(with-repeated-pointer)-wrong:{",".intercalate os}"
+                else if !intOk then s!"SPEC {cls} all-pairs-Intersection-(with-repeated-pointer)-wrong"
+                else if !isJoinB a b t1 then s!"SPEC {cls} (a+b)+b-is-not-the-join"
+                else if !isJoinB a b t2 then s!"SPEC {cls} (a+a)+b-is-not-the-join"
+                else if !isJoinB a b t3 then s!"SPEC {cls} (b+a)+itself-is-not-the-join"
+                else if t1 != (a.extend (some b)).extend (some b) || t2 != (a.extend (some a)).extend (some b)
+                     || t3 != (b.extend (some a)).extend (some (b.extend (some a)))
+                     || !((pairs.zip isK).all fun ((x, y), i) => i == x.intersection y) then s!"DIFF {cls} model-differs"
+                else s!"OK {cls}"
+              | _, _, _ => s!"SPEC {cls} NaN-in-result"
+            | _ => s!"SPEC {cls} unexpected-result"
+          | _ => s!"SPEC {cls} unexpected-result"
+        | _ => s!"SPEC {cls} unexpected-result"
+      | _ => s!"SPEC {cls} unexpected-result {" ".intercalate (rhs.take 4)}"
+    | _ => "DIFF self3 unparsable-input"
   | ["new"] =>
     if rhs == ["ok", "7ff0000000000000", "7ff0000000000000", "fff0000000000000", "fff0000000000000"]
     then "OK new" else "SPEC new NewBounds-is-not-the-empty-box"
